@@ -7,6 +7,8 @@ import InvProxy.Model.Dedup
 import InvProxy.Model.Inject
 import InvProxy.Model.ShimUrl
 import InvProxy.Model.WsCodec
+import InvProxy.Model.Sessions
+import InvProxy.Model.Relay
 open InvProxy Driver
 
 /-- suite `backoff`: `target <n>` ↦ un-jittered target in ns;  `loop <pattern of 0/1>` ↦ retry counts slept with -/
@@ -212,11 +214,70 @@ def wsinjectStep (_ : Unit) : List String → Unit × String
     | none => ((), "parse-error")
   | _ => ((), "bad-op")
 
+/-- A simple cookie jar for the correspondence runs (one host, Path=/, no attributes):
+    name ↦ value in order of first creation; `!` after a value = Max-Age=0 = delete. -/
+def simpleJar : Sessions.JarOps (List (String × String)) Unit String (String × String) where
+  empty := []
+  set j _ scs := scs.foldl (fun j sc =>
+    let del := sc.endsWith "!"
+    let sc := if del then String.ofList (sc.toList.take (sc.length - 1)) else sc
+    match sc.splitOn "=" with
+    | [n, v] =>
+      if del then j.filter (·.1 != n)
+      else if j.any (·.1 == n) then j.map (fun p => if p.1 == n then (n, v) else p) else j ++ [(n, v)]
+    | _ => j) j
+  get j _ := j
+
+def strBytes (s : String) : Bytes := s.toUTF8.toList
+def bytesStr (b : Bytes) : String := String.fromUTF8! ⟨b.toArray⟩
+
+/-- suite `sessions`: `new <cap>` | `req <cookies>` | `resp <sid> <fresh> <set-cookies>` -/
+def sessionsStep (c : Sessions.Cache (List (String × String))) : List String → Sessions.Cache (List (String × String)) × String
+  | ["new", cap] => ({ cap := natD cap, entries := [] }, "ok")
+  | ["req", cks] =>
+    let cookies : List (Bytes × Bytes) := if cks == "-" then [] else (cks.splitOn ",").filterMap fun kv =>
+      match kv.splitOn "=" with | [n, v] => some (strBytes n, strBytes v) | _ => none
+    let (c', sid, out) := Sessions.request simpleJar { cookieName := strBytes "sess" } c () cookies
+    let shown := out.map fun b => match b with
+      | .client n v => bytesStr n ++ "=" ++ bytesStr v
+      | .jar (n, v) => n ++ "=" ++ v
+    (c', s!"sid={hexOf sid} backend={if shown.isEmpty then "-" else ",".intercalate shown}")
+  | ["resp", sid, fresh, scs] =>
+    let (c', iss) := Sessions.response simpleJar c (unhexD sid) (unhexD fresh) () (if scs == "-" then [] else scs.splitOn ",")
+    (c', s!"issued={if iss.isSome then "1" else "0"}")
+  | _ => (c, "bad-op")
+
+/-- suite `relay`: `new` | `arrive c` | `fetch w r` | `upload w` against the atomic-generator LTS -/
+def relayStep (s : Relay.St) : List String → Relay.St × String
+  | ["new"] => (Relay.init, "ok")
+  | ["arrive", c] =>
+    match Relay.step .atomic s (.arrive (natD c)) with
+    | some s' => (s', "ok")
+    | none => (s, "rejected")
+  | ["fetch", w, r] =>
+    match Relay.step .atomic s (.fetch (natD w) (natD r)) with
+    | some s' => (s', match s'.fetched.head? with | some (_, _, c) => s!"200 tok={c}" | none => "200 tok=?")
+    | none => (s, "404 tok=")
+  | ["drop", w] => ({ s with fetched := s.fetched.filter (·.1 ≠ natD w) }, "ok")
+  | ["upload", w] =>
+    match s.fetched.find? (·.1 = natD w) with
+    | none => (s, "no-such-worker")
+    | some (_, r, _) =>
+      match Relay.step .atomic s (.upload (natD w)) with
+      | none => (s, "no-such-worker")
+      | some s1 =>
+        match Relay.step .atomic s1 (.deliver r) with
+        | some s2 => (s2, match s2.delivered.head? with | some (_, tok) => s!"200 delivered {r} tok={tok}" | none => "?")
+        | none => ({ s1 with produced := s1.produced.filter (·.1 ≠ r) }, "blocked")
+  | _ => (s, "bad-op")
+
 def main (args : List String) : IO UInt32 := do
   let stdin ← IO.getStdin
   let stdout ← IO.getStdout
   match args with
   | ["backoff"] => loop stdin stdout backoffStep (); return 0
+  | ["relay"] => loop stdin stdout relayStep Relay.init; return 0
+  | ["sessions"] => loop stdin stdout sessionsStep { cap := 0, entries := [] }; return 0
   | ["wscodec"] => loop stdin stdout wscodecStep (); return 0
   | ["wsinject"] => loop stdin stdout wsinjectStep (); return 0
   | ["shimurl"] => loop stdin stdout shimurlStep (); return 0
